@@ -3,6 +3,7 @@ from engine.part import Part
 from harness import common
 
 META = {
+    'tier_note': 'quick and thorough use the same (thorough) bounds for this property',
     'level': 'model_checking',
     'claim': 'Content bodies of every length in the bound with all byte values symbolic (so 0xCE, '
              '"AMQP" and header look-alikes are included by construction), every channel, and all '
@@ -69,6 +70,8 @@ def body(a, b, c, ch):
 
 
 def partitions(tier, seed):
+    # the thorough bounds of this property exhaust in about a minute: the quick tier uses them too
+    tier = 'thorough'
     parts = []
     top = 32 if tier == 'quick' else 48
     for n in range(1, top + 1):
